@@ -42,7 +42,8 @@ FAMILIES = {  # family -> member-name templates that are renumbered together
     "media": ["/ppt/media/media%d.mp4"],
 }
 PATTERNS = [[2], [5], [1, 3], [2, 3], [3, 1], [1, 2, 4], [1, 3, 2], [2, 4, 6], [1, 2, 3],
-            [1, 3, 4, 5, 6, 7, 8, 9, 10, 11]]  # two-digit indices with a hole at 2 ("image10" sorts before "image2" as a string)
+            [1, 3, 4, 5, 6, 7, 8, 9, 10, 11],  # two-digit indices with a hole at 2 ("image10" sorts before "image2" as a string)
+            [None], [None, 2]]  # a member WITHOUT a number (media.mp4, chart.xml: a singleton named by another producer)
 
 
 def run_families(unit, acc):
@@ -98,7 +99,7 @@ def run_families(unit, acc):
             data = buf.getvalue()
             for tmpl in FAMILIES[fam]:
                 m1 = {tmpl % (i + 1): tmpl.replace("%d", "tmp%d") % (i + 1) for i in range(len(pat))}
-                m2 = {tmpl.replace("%d", "tmp%d") % (i + 1): tmpl % pat[i] for i in range(len(pat))}
+                m2 = {tmpl.replace("%d", "tmp%d") % (i + 1): (tmpl % pat[i] if pat[i] is not None else tmpl.replace("%d", "")) for i in range(len(pat))}
                 data = histories.rename_members(histories.rename_members(data, m1), m2)
             before = set(zipfile.ZipFile(io.BytesIO(data)).namelist())
             prs = pptx.Presentation(io.BytesIO(data))
